@@ -220,6 +220,24 @@ def e2e_case(case):
                               f"answers with '{reply}' was dropped: clean PASS", {"reply": reply, "line": o.line("check_s"), "warnings": o.warnings})
             else:
                 rec.ok(cls, ident)
+        elif kind == "setup-stuck":
+            # setUp() stops on an unsupported opcode, in its own frame or inside a contract it calls
+            where, = par
+            if where == "own":
+                t = e2e.Spec("SetupStuckT", fns=[("setUp()", [0x49, "POP", ("PUSH", 7), ("PUSH", 1), "SSTORE"]), ("check_x()", ["STOP"])])
+                o = e2e.run(t)
+            else:
+                callee = e2e.Spec("Callee", fns=[("poke()", [0x49, "POP", "STOP"])])
+                setup = e2e.create_from_data("c", store_slot=0) + e2e.ext_call([("PUSH", 0), "SLOAD"], "poke()") + ["POP", ("PUSH", 7), ("PUSH", 1), "SSTORE"]
+                t = e2e.Spec("SetupStuckT", fns=[("setUp()", setup), ("check_x()", ["STOP"])], data={"c": callee.creation()})
+                o = e2e.run(t, others=(callee,))
+            r = o.result("check_x")
+            reported = any(("0x49" in m or "nsupported" in m or "internal-error" in m) for _, m in o.warnings)
+            if r is not None and r.exitcode == 0 and not reported:
+                rec.violation(cls, f"setup-stuck-clean-pass/{where}", f"setUp() stops on an unsupported opcode ({where} frame) but is treated as a "
+                              "completed setup: the test then passes with no warning", {"where": where, "line": o.line("check_x"), "log": o.warnings})
+            else:
+                rec.ok(cls, ident)
         elif kind == "invariant-target-unsupported":
             weird = e2e.arg(0) + ["MLOAD", "POP", "STOP"]
             tgt = e2e.Spec("Weird", fns=[("weird(uint256)", weird), ("x()", ["PUSH0", "SLOAD", "PUSH0", "MSTORE", ("PUSH", 32), "PUSH0", "RETURN"])])
@@ -300,7 +318,7 @@ def main(run: common.Run):
         cases += [("invariant-loop", (K, L, d), tier) for K in (1, 3, 5) for L in (1, 2, 6) for d in (1, 2)]
         cases += [("invariant-fn-loop", (order, L), tier) for order in (("set(uint256)", "mark()"), ("mark()", "set(uint256)")) for L in (1, 2, 3)]
         cases += [("stuck-unknown-solver", (rp,), tier) for rp in ("unknown", "garbage", "empty", "exit3")]
-        cases += [("invariant-target-unsupported", (), tier)]
+        cases += [("invariant-target-unsupported", (), tier), ("setup-stuck", ("own",), tier), ("setup-stuck", ("callee",), tier)]
         for res in common.parallel_map(e2e_case, cases, 6):
             if res and res[0] == "error":
                 run.harness_error("worker crashed: " + res[1].strip().splitlines()[-1])
